@@ -5,6 +5,7 @@
 package tds
 
 import (
+	"fmt"
 	"sync"
 )
 
@@ -157,10 +158,11 @@ func (queue *PacketQueue) Write(p []byte) (int, error) {
 
 // Bytes returns a slice of bytes from the queue.
 //
-// The returned byte slice will always be of length n.
-//
 // If there aren't enough bytes to read n bytes Bytes will return
-// a wrapped io.EOF. The returned byte slice will still be of length n.
+// ErrNotEnoughBytes. The returned byte slice then holds the bytes that
+// were available and is shorter than n.
+//
+// A negative n is an error.
 func (queue *PacketQueue) Bytes(n int) ([]byte, error) {
 	queue.Lock()
 	defer queue.Unlock()
@@ -169,7 +171,18 @@ func (queue *PacketQueue) Bytes(n int) ([]byte, error) {
 		return []byte{}, nil
 	}
 
-	bs := make([]byte, n)
+	if n < 0 {
+		return []byte{}, fmt.Errorf("cannot read %d bytes from packet queue", n)
+	}
+
+	// n usually is a length sent by the server - never allocate more
+	// than the queue actually holds.
+	size := n
+	if available := queue.available(n); available < n {
+		size = available
+	}
+
+	bs := make([]byte, size)
 	// bsOffset is the index in the return slice where data still needs
 	// to be written.
 	bsOffset := 0
@@ -208,10 +221,26 @@ func (queue *PacketQueue) Bytes(n int) ([]byte, error) {
 	return bs, nil
 }
 
+// available returns the number of unread bytes in the queue. Counting
+// stops once limit is reached.
+func (queue *PacketQueue) available(limit int) int {
+	total := 0
+	for i := queue.indexPacket; i < len(queue.queue) && total < limit; i++ {
+		total += len(queue.queue[i].Data)
+		if i == queue.indexPacket {
+			total -= queue.indexData
+		}
+	}
+	return total
+}
+
 // Byte implements the tds.BytesChannel interface.
 func (queue *PacketQueue) Byte() (byte, error) {
 	bs, err := queue.Bytes(1)
-	return bs[0], err
+	if err != nil {
+		return 0, err
+	}
+	return bs[0], nil
 }
 
 // Uint8 implements the tds.BytesChannel interface.
@@ -229,7 +258,10 @@ func (queue *PacketQueue) Int8() (int8, error) {
 // Uint16 implements the tds.BytesChannel interface.
 func (queue *PacketQueue) Uint16() (uint16, error) {
 	bs, err := queue.Bytes(2)
-	return endian.Uint16(bs), err
+	if err != nil {
+		return 0, err
+	}
+	return endian.Uint16(bs), nil
 }
 
 // Int16 implements the tds.BytesChannel interface.
@@ -241,7 +273,10 @@ func (queue *PacketQueue) Int16() (int16, error) {
 // Uint32 implements the tds.BytesChannel interface.
 func (queue *PacketQueue) Uint32() (uint32, error) {
 	bs, err := queue.Bytes(4)
-	return endian.Uint32(bs), err
+	if err != nil {
+		return 0, err
+	}
+	return endian.Uint32(bs), nil
 }
 
 // Int32 implements the tds.BytesChannel interface.
@@ -253,7 +288,10 @@ func (queue *PacketQueue) Int32() (int32, error) {
 // Uint64 implements the tds.BytesChannel interface.
 func (queue *PacketQueue) Uint64() (uint64, error) {
 	bs, err := queue.Bytes(8)
-	return endian.Uint64(bs), err
+	if err != nil {
+		return 0, err
+	}
+	return endian.Uint64(bs), nil
 }
 
 // Int64 implements the tds.BytesChannel interface.
